@@ -21,6 +21,15 @@ huge magnitudes and the dtype limits, plain small ties; the reference of the fre
 of its neighbours in any dtype.  The oracle compares exact numbers (Fractions, +-inf); never a tolerance for
 equality / order (sum / mean / std / averaged median are compared within 1e-9 only where float64 evaluation of the
 statistic is well conditioned, and skipped where +inf and -inf meet).
+Argument objects (`names` of a case): every name-valued parameter (`ref_var`, the elements of `data_vars`, `func`)
+and the Dataset keys themselves are built at call time in a recorded way -- an interned literal, an equal string that
+is another object (`"".join(..)`, `str(np.str_(..))`), an `np.str_`, the very key object out of `list(ds.data_vars)`;
+`data_vars` as a list / a tuple (the code may refuse a tuple with TypeError, it may not compute something else),
+with repeated names, left at None; `func` left at its default.  Whatever the spelling, the result must satisfy the
+per-cell oracle for the layers *named* (by value), and be identical to the call that names the same layers with
+the Dataset's own key objects in an explicit list (`canonical`).
+Dtype placement: a share of the cases puts an integer layer first among the selected layers and a NaN into a later
+float layer (a result buffer typed after the first layer cannot hold the NaN).
 Platform equality: `ref_list` holds NumPy scalars, the tuples hold Python scalars; under NumPy's promotion rules a
 float32 reference is compared in float32 (the Python scalar is rounded to float32 first).  For a float32 reference
 layer the frequency oracle therefore uses that promoted comparison; all other dtype pairs compare exactly for
@@ -28,13 +37,14 @@ layer the frequency oracle therefore uses that promoted comparison; all other dt
 """
 import itertools
 import math
+import sys
 from fractions import Fraction
 
 import numpy as np
 import xarray as xr
 
 import edge_values as ev
-from common import Driver, close, tok
+from common import Driver, close, tok, untok
 
 PROP = "C17"
 
@@ -58,15 +68,52 @@ def exq(v):
     return None if e == "nan" else INF if e == "inf" else -INF if e == "-inf" else e
 
 
+NAME_FORMS = ["same", "intern", "fresh", "npstr", "strnp"]
+
+
+def mkname(name, form, ds=None):
+    """the argument object that names variable `name`.  `same`: the very key object of the Dataset (what
+    `list(ds.data_vars)` hands out); `intern`: the interned string (what a literal in the caller's source is);
+    `fresh` / `strnp`: an equal string that is another object (built at run time, read from a file ..);
+    `npstr`: a NumPy string scalar (a `str` subclass); `asis` (cases recorded before the forms existed): the
+    object of the case itself"""
+    if form == "same":
+        return next((k for k in ds.data_vars if k == name), name) if ds is not None else name
+    if form == "intern":
+        return sys.intern(str(name))
+    if form == "fresh":
+        return "".join(list(str(name)))
+    if form == "npstr":
+        return np.str_(name)
+    if form == "strnp":
+        return str(np.str_(name))
+    return name
+
+
 def build(case):
     """case json -> (Dataset, {name: exact row-major list of Fraction | +-inf | None}); the arrays hold exactly the
     numbers named by the tokens (no detour through float64), the exact values are read back from the arrays"""
     dvars, exact = {}, {}
+    kform = (case.get("names") or {}).get("keys", "asis")
     for v in case["vars"]:
         a = ev.array(v["values"], v["dtype"])
-        dvars[v["name"]] = (("y", "x"), lay(a, v["layout"]))
+        dvars[mkname(v["name"], kform)] = (("y", "x"), lay(a, v["layout"]))
         exact[v["name"]] = [exq(x) for x in a.ravel(order="C")]
     return xr.Dataset(dvars), exact
+
+
+def arguments(case, ds):
+    """(positional ref_var or None, keyword arguments) as the objects the case's `names` describe"""
+    nm = case.get("names") or {}
+    kw = {}
+    if case["data_vars"] is not None:
+        forms = nm.get("dv") or ["asis"] * len(case["data_vars"])
+        dv = [mkname(n, f, ds) for n, f in zip(case["data_vars"], forms)]
+        kw["data_vars"] = tuple(dv) if nm.get("dvc") == "tuple" else dv
+    if case["op"] == "cell_stats" and nm.get("func") != "default":
+        kw["func"] = mkname(case["func"], nm.get("func", "asis"))
+    ref = mkname(case["ref_var"], nm.get("ref", "asis"), ds) if case["op"] in OPS_FREQ + OPS_IREF else None
+    return ref, kw
 
 
 def call(case, ds=None):
@@ -75,14 +122,10 @@ def call(case, ds=None):
     if ds is None:
         ds, _ = build(case)
     fn = getattr(local, case["op"])
-    kw = {}
-    if case["data_vars"] is not None:
-        kw["data_vars"] = list(case["data_vars"])
-    if case["op"] == "cell_stats":
-        kw["func"] = case["func"]
+    ref, kw = arguments(case, ds)
     try:
         if case["op"] in OPS_FREQ + OPS_IREF:
-            out = fn(ds, case["ref_var"], **kw)
+            out = fn(ds, ref, **kw)
         else:
             out = fn(ds, **kw)
     except (IndexError, ValueError, TypeError) as ex:
@@ -94,6 +137,45 @@ def call(case, ds=None):
         if extra:
             key["__extra__"] = sorted(extra)
     return "ok", np.asarray(out.values), key
+
+
+def tuple_refused(case, status):
+    """`data_vars` is documented as a list: refusing a tuple with TypeError is inside the contract"""
+    return status == "TypeError" and (case.get("names") or {}).get("dvc") == "tuple"
+
+
+def canonical(case):
+    """the same request in the canonical spelling: the Dataset's own key objects, an explicit list of the layers
+    the case names (the explicit equivalent of `data_vars=None`), `func` given"""
+    nm = dict(case.get("names") or {})
+    layers = resolve(case)
+    nm.update(ref="same", dv=["same"] * len(layers), dvc="list", func="intern")
+    return dict(case, data_vars=layers, names=nm)
+
+
+def is_canonical(case):
+    nm = case.get("names") or {}
+    return case["data_vars"] is not None and nm.get("dvc", "list") == "list" and nm.get("ref", "same") == "same" \
+        and all(f == "same" for f in nm.get("dv") or []) and nm.get("func", "intern") == "intern"
+
+
+def spelling(case, ds, status, out, key):
+    """None, or how the result differs from the call in the canonical spelling (same layers, same values)"""
+    if tuple_refused(case, status):
+        return None
+    st2, out2, key2 = call(canonical(case), ds)
+    what = f"{case['op']}: names {case.get('names')} data_vars={case['data_vars']}"
+    if status != st2:
+        return ("names", f"{what}: {status} ({out if status != 'ok' else ''}), with the Dataset's own key objects in an "
+                         f"explicit list: {st2} ({out2 if st2 != 'ok' else ''})")
+    if status != "ok":
+        return None
+    if out.shape != out2.shape or out.dtype != out2.dtype or not np.array_equal(out, out2, equal_nan=True):
+        return ("names", f"{what}: result {out.tolist()} ({out.dtype}); with the Dataset's own key objects in an explicit "
+                         f"list of the same layers: {out2.tolist()} ({out2.dtype})")
+    if repr(key) != repr(key2):
+        return ("names", f"{what}: key {key}; in the canonical spelling: {key2}")
+    return None
 
 
 def resolve(case):
@@ -201,6 +283,8 @@ def oracle(case, status, out, key, exact):
     if status != "ok":
         if status == "IndexError" and op in OPS_IREF and any(r is not None and r < 1 for r in ref):
             return None                  # a reference <= 0 is outside the property's domain
+        if tuple_refused(case, status):
+            return None
         return ("raise", f"{op}: raised {status}: {out}")
     if out.shape != (h, w):
         return ("shape", f"{op}: output shape {out.shape} for layers of shape {(h, w)}")
@@ -263,6 +347,8 @@ def oracle_combine(tuples, flat, key):
 def classify(case, bad):
     """key of the finding class: the memory-order defect is recognised by the failure disappearing
     when every layer is made C-contiguous"""
+    if bad[0] == "names":
+        return f"{case['op']}:names"
     if any(v["layout"] != "C" for v in case["vars"]):
         c2 = dict(case, vars=[dict(v, layout="C") for v in case["vars"]])
         ds, exact = build(c2)
@@ -455,24 +541,92 @@ def gen_case(rng, op=None, force_layout=None, nlayers=None):
         ref = dict(name="ref", dtype=dtype, layout=layout, values=[toks[i * w:(i + 1) * w] for i in range(h)])
         vars_.insert(rng.randrange(len(vars_) + 1), ref)       # anywhere in the dataset order
     data_names = [v["name"] for v in vars_ if v["name"] != "ref"]
-    form = rng.choice(["none", "subset", "subset", "all-shuffled"])
-    if form == "none":
-        data_vars = None
-    elif form == "all-shuffled":
-        data_vars = data_names[:]
-        rng.shuffle(data_vars)
-    else:
-        m = rng.randrange(2, len(data_names) + 1)
-        data_vars = rng.sample(data_names, m)
-    case = dict(op=op, func=rng.choice(STATS) if op == "cell_stats" else None, shape=[h, w], vars=vars_,
+    form = rng.choice(["none", "none", "subset", "subset", "all-shuffled", "dup"])
+    data_vars = gen_data_vars(rng, form, data_names)
+    case = dict(op=op, func=rng.choice(STATS + ["sum"]) if op == "cell_stats" else None, shape=[h, w], vars=vars_,
                 data_vars=data_vars, ref_var=ref_var)
+    case["names"] = gen_names(rng, case)
+    placed = rng.random() < 0.12 and int_first(rng, case)
     nl = len(resolve(case))
     if needs_ref and op in OPS_IREF:           # keep most references inside 1..(number of data layers used)
         for row in next(v for v in vars_ if v["name"] == "ref")["values"]:
             for j, t in enumerate(row):
                 if int(t) > nl and rng.random() < 0.7:
                     row[j] = tok(rng.randrange(1, nl + 1))
-    return case, dict(kind=kind, mode=mode, form=form)
+    return case, dict(kind=kind, mode=mode, form=form, placed=placed)
+
+
+def gen_data_vars(rng, form, data_names):
+    """the `data_vars` argument: None, every layer in another order, a subset in any order, a selection that names a
+    layer twice"""
+    if form == "none":
+        return None
+    if form == "all-shuffled":
+        dv = data_names[:]
+    elif form == "dup":
+        dv = rng.sample(data_names, rng.randrange(1, len(data_names) + 1))
+        dv += [rng.choice(dv) for _ in range(rng.randrange(1, 3))]
+    else:
+        dv = rng.sample(data_names, rng.randrange(2, len(data_names) + 1))
+    rng.shuffle(dv)
+    return dv
+
+
+def gen_names(rng, case):
+    """how the Dataset keys and every name-valued argument are built (see `mkname`)"""
+    nm = dict(keys=rng.choice(["intern", "fresh", "fresh"]))
+    if case["ref_var"] is not None:
+        nm["ref"] = rng.choice(NAME_FORMS)
+    if case["data_vars"] is not None:
+        one = rng.choice(NAME_FORMS + ["mixed", "mixed"])
+        nm["dv"] = [rng.choice(NAME_FORMS) if one == "mixed" else one for _ in case["data_vars"]]
+        nm["dvc"] = "tuple" if rng.random() < 0.04 else "list"
+    if case["op"] == "cell_stats":
+        nm["func"] = rng.choice(["intern", "fresh", "npstr"] + (["default", "default"] if case["func"] == "sum" else []))
+    return nm
+
+
+def name_tags(case):
+    nm = case.get("names") or {}
+    tags = [f"names:keys={nm.get('keys', 'asis')}"]
+    if case["ref_var"] is not None:
+        ident = nm.get("ref") == "same" or (nm.get("ref") == "intern" and nm.get("keys") == "intern")
+        tags += [f"names:ref={nm.get('ref', 'asis')}", "names:ref-object=" + ("the-key-itself" if ident else "equal-not-identical")]
+    if case["data_vars"] is None:
+        tags.append("names:data_vars=default")
+    else:
+        fs = set(nm.get("dv") or ["asis"])
+        tags.append("names:data_vars=" + (fs.pop() if len(fs) == 1 else "mixed") + ("/tuple" if nm.get("dvc") == "tuple" else ""))
+        if len(set(case["data_vars"])) < len(case["data_vars"]):
+            tags.append("names:data_vars-repeats")
+    if case["op"] == "cell_stats":
+        tags.append(f"names:func={nm.get('func', 'asis')}")
+    return tags
+
+
+def int_first(rng, case):
+    """dtype placement: make the first selected layer an integer layer and put a NaN into a later (float) selected layer"""
+    layers = resolve(case)
+    byname = {v["name"]: v for v in case["vars"]}
+    later = [n for n in layers[1:] if n != layers[0]]
+    if not later:
+        return False
+    first = byname[layers[0]]
+    h, w = case["shape"]
+    if not first["dtype"].startswith(("int", "uint")):
+        first["dtype"] = rng.choice(["int64", "int32", "int16", "uint8"])
+        lo = 0 if first["dtype"].startswith("uint") else -100
+        fin = [untok(t) for row in first["values"] for t in row if t != "nan"] or [1]
+        first["values"] = [[tok(max(lo, min(200, int(math.floor(rng.choice(fin) if t == "nan" else untok(t)))))) for t in row]
+                           for row in first["values"]]
+    fl = [n for n in later if byname[n]["dtype"].startswith("float")]
+    if not fl:
+        fl = [rng.choice(later)]
+        byname[fl[0]]["dtype"] = rng.choice(["float64", "float32"])
+    tgt = byname[rng.choice(fl)]
+    for _ in range(rng.randrange(1, 3)):
+        tgt["values"][rng.randrange(h)][rng.randrange(w)] = "nan"
+    return True
 
 
 # ---------------------------------------------------------------- edge values (harness/edge_values.py)
@@ -568,16 +722,11 @@ def gen_edge(rng, op=None, force_layout=None):
             refcol[rng.randrange(n)] = math.nan
         vars_.insert(rng.randrange(len(vars_) + 1), var("ref", ref_dtype, refcol))
     data_names = [v["name"] for v in vars_ if v["name"] != "ref"]
-    form = rng.choice(["none", "subset", "all-shuffled"])
-    if form == "none":
-        data_vars = None
-    elif form == "all-shuffled":
-        data_vars = data_names[:]
-        rng.shuffle(data_vars)
-    else:
-        data_vars = rng.sample(data_names, rng.randrange(2, len(data_names) + 1))
+    form = rng.choice(["none", "none", "subset", "all-shuffled", "dup"])
+    data_vars = gen_data_vars(rng, form, data_names)
     case = dict(op=op, func=rng.choice(STATS) if op == "cell_stats" else None, shape=[h, w], vars=vars_,
                 data_vars=data_vars, ref_var=ref_var)
+    case["names"] = gen_names(rng, case)
     nl = len(resolve(case))
     if op in OPS_IREF:
         for row in next(v for v in vars_ if v["name"] == "ref")["values"]:
@@ -618,18 +767,21 @@ def nontrivial(case, exact):
 
 
 # ---------------------------------------------------------------- the check
-def check_one(r, case, reqs, pend, tags, rng=None, meta=False):
+def check_one(r, case, reqs, pend, tags, rng=None, meta=False, spell=False):
     ds, exact = build(case)
     status, out, key = call(case, ds)
     bad = oracle(case, status, out, key, exact)
+    if bad is None and spell and not is_canonical(case):
+        bad = spelling(case, ds, status, out, key)
     if bad is None and meta and rng is not None:
         bad = metamorphic(case, rng, status, out)
     r.case(case, desc=brief(case), nontrivial=nontrivial(case, exact),
-           tags=tags + [f"op:{case['op']}", f"status:{status}", f"layers:{len(resolve(case))}",
-                        f"shape:{case['shape'][0]}x{case['shape'][1]}"])
+           tags=tags + name_tags(case) + [f"op:{case['op']}", f"status:{status}", f"layers:{len(resolve(case))}",
+                                          f"shape:{case['shape'][0]}x{case['shape'][1]}"])
     if bad:
         r.fail(classify(case, bad), bad[1] + f" [layouts {sorted({v['layout'] for v in case['vars']})}]", case)
-    push(case, status, out, key, exact, reqs, pend)
+    if not tuple_refused(case, status):
+        push(case, status, out, key, exact, reqs, pend)
     return bad
 
 
@@ -642,6 +794,7 @@ def push(case, status, out, key, exact, reqs, pend):
 
 def brief(case):
     return dict(op=case["op"], func=case["func"], shape=case["shape"], data_vars=case["data_vars"], ref_var=case["ref_var"],
+                names=case.get("names"),
                 vars=[dict(name=v["name"], dtype=v["dtype"], layout=v["layout"]) for v in case["vars"]])
 
 
@@ -675,11 +828,15 @@ def declare(r):
 
 def run(r, n_override=None, bias=None):
     declare(r)
-    n_rand = {"quick": 10000, "thorough": 250000}[r.tier] if n_override is None else n_override
+    n_rand = {"quick": 9000, "thorough": 200000}[r.tier] if n_override is None else n_override
     r.rule = ("per case: op in the 10 public operators (cell_stats x 6 statistics), 2..6 data layers + 0..2 unused "
               "variables, shape 1x1..5x6, dtypes f8/f4/i8/i4, values ties{0,1,2}/ints/dyadics/wide, NaN in 45% of "
               "float layers, data_vars None/subset/shuffled, ref anywhere in the dataset, integer refs in 1..n mostly, "
-              "layouts C/F/strided/F-strided/negative-strides/mixed; plus rasters holding ALL tuples over "
+              "layouts C/F/strided/F-strided/negative-strides/mixed; data_vars also with repeated names / as a tuple; "
+              "argument objects: Dataset keys interned or built at run time, ref_var / data_vars elements / func as the key "
+              "object itself, an interned literal, an equal-but-not-identical string, np.str_ (result = per-cell oracle of the "
+              "layers named by value, and identical to the canonical spelling: key objects, explicit list); func left at its "
+              "default; 12%: first selected layer integer + NaN in a later float layer; plus rasters holding ALL tuples over "
               "{nan,0,1,2}^n; plus the edge stream: layers of every dtype f4/f8/i1..u8, per cell a near-tie cluster "
               "(nextafter f4/f8, rel 1e-5..1e-9, abs 1e-8..1e-12, +-1 on ints up to 2^53) / +-inf combinations / "
               "0.0,-0.0,subnormal / huge and dtype limits / plain ties, reference = base or neighbour in any dtype; "
@@ -705,16 +862,17 @@ def run(r, n_override=None, bias=None):
     for k in range(n_rand):
         op = ALL_OPS[k % len(ALL_OPS)]
         case, info = gen_case(r.rng, op=op, force_layout=bias)
-        check_one(r, case, reqs, pend, [f"kind:{info['kind']}", f"layout:{info['mode']}", f"data_vars:{info['form']}"],
-                  rng=r.rng, meta=(k % 5 == 0))
+        check_one(r, case, reqs, pend, [f"kind:{info['kind']}", f"layout:{info['mode']}", f"data_vars:{info['form']}"]
+                  + (["dtype-placement:int-first+later-nan"] if info["placed"] else []),
+                  rng=r.rng, meta=(k % 5 == 0), spell=True)
         if len(reqs) >= 4000:
             flush(r, reqs, pend)
-    n_edge = {"quick": 8000, "thorough": 100000}[r.tier] if n_override is None else n_override
+    n_edge = {"quick": 7000, "thorough": 80000}[r.tier] if n_override is None else n_override
     for k in range(n_edge):
         op = ALL_OPS[k % len(ALL_OPS)]
         case, info = gen_edge(r.rng, op=op, force_layout=bias)
         check_one(r, case, reqs, pend, ["edge", f"kind:{info['kind']}", f"layout:{info['mode']}", f"data_vars:{info['form']}"],
-                  rng=r.rng, meta=(k % 7 == 0))
+                  rng=r.rng, meta=(k % 7 == 0), spell=True)
         if len(reqs) >= 4000:
             flush(r, reqs, pend)
     flush(r, reqs, pend)
@@ -733,6 +891,8 @@ def replay(r, body):
     ds, exact = build(case)
     status, out, key = call(case, ds)
     bad = oracle(case, status, out, key, exact)
+    if bad is None and not is_canonical(case):
+        bad = spelling(case, ds, status, out, key)
     if bad is None:
         import random
         bad = metamorphic(case, random.Random(0), status, out)
